@@ -2,6 +2,7 @@ import CedarVerif.Driver.Ops.Core
 import CedarVerif.Driver.Ops.Conf
 import CedarVerif.Driver.Ops.TC
 import CedarVerif.Driver.Ops.Syntax
+import CedarVerif.Driver.Ops.SyntaxPolicy
 import CedarVerif.Driver.Ops.PolicySet
 import CedarVerif.Driver.Ops.Est
 import CedarVerif.Driver.Ops.Fmt
@@ -28,6 +29,7 @@ def handlers : List (Sexp → Option String) := [
   Ops.handleConf,
   Ops.handleTC,
   Ops.handleSyntax,
+  Ops.SynPol.handleSyntaxPolicy,
   Ops.handlePSet,
   Ops.handleEst,
   Ops.handleFmt,
